@@ -7,6 +7,9 @@ CLAIMED = {
  "C11": ("model_checking", "CrossHair/z3 symbolic execution of the real _SafeVisitor: one local lemma per AST node class (structural induction) + symbolic compile() sequences",
          "Bounded symbolic check: for every node class of the interpreter's expression grammar the solver explores all paths of the real visitor over symbolic child counts (0..2), optional-field flags and identifier strings (len<=8) and shows that a normal return implies whitelist membership, declared names, listed call targets and that every child position was visited; by induction over the tree this covers expressions of any depth. compile() is checked as a unit over a 16x6 table with symbolic indices, symbolic variable values and 2-call histories.",
          "Trusted: CPython ast/compile/eval, CrossHair 0.0.110 + z3 5.1 models of int/str/list; the whitelist constant frozen in the harness; bounds: list fields <=2 children, identifiers <=8 chars, expression texts limited to the table.", "4 C11"),
+ "C12": ("translation_validation", "z3 equivalence/inequivalence queries on an encoding of Python integer semantics generated from each expression's AST; the real normaliser is executed on exhaustive universes",
+         "The normaliser's equivalence classes are validated semantically: for every pair of expressions that the real normalize_expression_sig_v1 maps to one signature z3 proves equality for all integer assignments (unsat of the negation), every single AC move is checked to keep the signature, and every single-point mutation that z3 can separate must change it. Exhaustive up to 5 AST nodes (6 in thorough over a reduced leaf set) plus all pairs/triples of nested chains, plus a seeded draw of larger expressions.",
+         "Trusted: z3 5.1 integer theory; the Python-semantics encoding vt/z3enc/expr.py (validated each run on a grid against the real ExpressionEvaluator); divisors assumed non-zero; floats and symbolic exponents outside.", "4 C12"),
 }
 NOT_APPLICABLE = {
  "C18": "observable is the population of live objects / registry length after N whole-program runs: no input for a solver to range over; a 'symbolic' check would be a concrete measurement under another name (DESIGN 5)",
